@@ -174,7 +174,9 @@ class MapfileTransformer(Transformer_NonRecursive):
             # allow for multipart features in a nested list
             existing_points = composite_dict[key_name]
 
-            if calculate_depth(existing_points) == 2:
+            # all parts are nested alike: looking at the first one is enough
+            # (walking every part again for each new POINTS block is quadratic)
+            if calculate_depth(existing_points[:1]) == 2:
                 composite_dict[key_name] = [existing_points]
 
             if key_name not in composite_dict:
